@@ -60,7 +60,9 @@ impl MemTableSource {
     }
 
     fn determine_limit(&self, ctx: &QueryContext) -> Option<usize> {
-        if ctx.should_defer_limit() {
+        // LIMIT on an aggregation caps the number of groups (applied after the merge in
+        // AggregateStreamMerger), never the events scanned into those groups.
+        if ctx.should_defer_limit() || self.config.plan.aggregate_plan.is_some() {
             None
         } else {
             self.config
